@@ -1,23 +1,8 @@
 (* The same statements loaded through parse_ntriples_and_add, parse_nquads_and_add and parse_n3 give the
    same denotation (corollary of the three loader theorems; Turtle and RDF/XML are not covered). *)
 Require Import KV.Codec13.Model KV.Codec13.Spec KV.Codec13.Wf KV.Codec13.Classes KV.Codec13.Inv.
-Require Import KV.Codec13.WfTtl KV.Codec13.NtProofs KV.Codec13.N3Proofs KV.Codec13.TtlProofs KV.Codec13.TtlListProofs.
+Require Import KV.Codec13.WfTtl KV.Codec13.QtEncProofs KV.Codec13.NtProofs KV.Codec13.N3Proofs KV.Codec13.TtlProofs KV.Codec13.TtlListProofs.
 Require Import Lia.
-
-Lemma formats_agree : forall (doc : list item) (x : db),
-  wf_doc_nt doc = true -> wf_doc_n3 doc = true ->
-  known_C13_reclean doc = false -> known_C13_n3 doc x = false -> db_ok x ->
-  next_id (d_dict x) + 4 * N.of_nat (length (triples_of doc)) <= QBIT ->
-  forall lq,
-    (In lq (den (load_nt (render_doc doc) x)) <-> In lq (den (load_nq (render_doc doc) x))) /\
-    (In lq (den (load_nt (render_doc doc) x)) <-> In lq (den (load_n3 (render_doc doc) x))).
-Proof.
-  intros doc x Hnt Hn3 Hr Hk Hx Hb lq.
-  destruct (ntriples_1000 doc x Hnt Hr Hx Hb) as [_ A].
-  destruct (nquads_main doc x (wf_nt_nq doc Hnt) Hr Hx Hb) as [_ B].
-  pose proof (n3_main doc x Hn3 Hk Hx) as C.
-  rewrite A, B, C. split; reflexivity.
-Qed.
 
 (* a document without prefixed names and @prefix lines says the same whatever prefixes are in scope *)
 Lemma quads_env_irrelevant : forall doc e, wf_doc_nt doc = true -> quads_from e doc = triples_of doc.
@@ -26,7 +11,9 @@ Proof.
   unfold wf_doc_nt in H. cbn [forallb] in H. apply andb_true_iff in H. destruct H as [Hi H].
   cbn [quads_from]. unfold wf_item_nt in Hi. apply andb_true_iff in Hi. destruct Hi as [Hq Hg].
   assert (L : forall t, wf_term_nt t = true -> lex e t = lex [] t).
-  { intros t Ht. destruct t; try discriminate; reflexivity. }
+  { intros t Ht. destruct t as [s0|l0|p0 l0|b0 x0|s0 p0 o0]; try discriminate; try reflexivity.
+    cbn [wf_term_nt] in Ht. apply andb_true_iff in Ht. destruct Ht as [Ht Ho]. apply andb_true_iff in Ht. destruct Ht as [Hs Hp].
+    cbn [lex]. rewrite !(QtEncProofs.comp_lex_env _ e) by assumption. reflexivity. }
   destruct i as [ws|ws text|pd s p o g|name iri|s pos]; cbn [wf_item_nq] in Hq; try discriminate;
     cbn [item_quads item_env app]; try (apply IH; exact H).
   destruct g as [g|]; [discriminate|]. repeat (apply andb_true_iff in Hq; destruct Hq as [Hq ?]).
@@ -44,26 +31,32 @@ Proof.
   lia.
 Qed.
 
+Lemma ttl_reclean_weaker : forall doc, known_C13_reclean doc = false -> known_C13_ttl_reclean doc = false.
+Proof.
+  unfold known_C13_reclean, known_C13_ttl_reclean. induction doc as [|i doc IH]; intro H; [reflexivity|].
+  cbn [existsb] in *. apply orb_false_iff in H. destruct H as [Hi H]. rewrite (IH H), Hi, andb_false_r. reflexivity.
+Qed.
+
 (* the same statements through four loaders; literals (plain, language-tagged, typed) are covered for
    N-Triples / N-Quads / Turtle; N3 joins for documents of its subset (no literals: finding C13-n3-literal-quoted) *)
 Lemma formats_agree4 : forall (doc : list item) (x : db),
   wf_doc_nt doc = true -> wf_doc_ttl doc = true ->
-  known_C13_reclean doc = false -> db_ok x -> pref_ok (d_pref x) ->
-  next_id (d_dict x) + 4 * N.of_nat (length doc) <= QBIT ->
+  known_C13_reclean doc = false -> db_okq x -> pref_ok (d_pref x) ->
+  next_id (d_dict x) + 10 * N.of_nat (length doc) <= QBIT ->
   forall lq,
     (In lq (den (load_nt (render_doc doc) x)) <-> In lq (den (load_nq (render_doc doc) x))) /\
     (In lq (den (load_nt (render_doc doc) x)) <-> In lq (den (load_ttl (render_doc doc) x))) /\
     (wf_doc_n3 doc = true -> known_C13_n3 doc x = false ->
      (In lq (den (load_nt (render_doc doc) x)) <-> In lq (den (load_n3 (render_doc doc) x)))).
 Proof.
-  intros doc x Hnt Httl Hr Hx Hp Hb lq.
+  intros doc x Hnt Httl Hr Hxq Hp Hb lq. pose proof (proj1 Hxq) as Hx.
   pose proof (triples_le_doc doc Hnt) as Hl.
-  assert (Hb' : next_id (d_dict x) + 4 * N.of_nat (length (triples_of doc)) <= QBIT) by lia.
-  destruct (ntriples_1000 doc x Hnt Hr Hx Hb') as [_ A].
-  destruct (nquads_main doc x (wf_nt_nq doc Hnt) Hr Hx Hb') as [_ B].
-  assert (Hb2 : next_id (d_dict x) + 4 * N.of_nat (length (quads_from (d_pref x) doc)) <= QBIT)
-    by (rewrite (quads_env_irrelevant doc (d_pref x) Hnt); exact Hb').
-  destruct (ttl_main doc x Httl Hx Hp Hb2) as [_ D].
+  assert (Hb' : next_id (d_dict x) + 10 * N.of_nat (length (triples_of doc)) <= QBIT) by lia.
+  destruct (ntriples_1000 doc x Hnt Hr Hxq Hb') as [_ A].
+  destruct (nquads_main doc x (wf_nt_nq doc Hnt) Hr Hxq Hb') as [_ B].
+  assert (Hb2 : next_id (d_dict x) + 9 * N.of_nat (length (quads_from (d_pref x) doc)) <= QBIT)
+    by (rewrite (quads_env_irrelevant doc (d_pref x) Hnt); lia).
+  destruct (ttl_main doc x Httl (ttl_reclean_weaker doc Hr) Hxq Hp Hb2) as [_ D].
   rewrite A, B, D. rewrite (quads_env_irrelevant doc (d_pref x) Hnt).
   split; [reflexivity|]. split; [reflexivity|].
   intros Hn3 Hk. rewrite (n3_main doc x Hn3 Hk Hx). reflexivity.
